@@ -82,6 +82,9 @@ def polynomial_from_attributes(
         dtype = numpy.result_type(
             *[numpy.asarray(coeff).dtype for coeff in coefficients]
         )
+    if len(coefficients):
+        # cast first: which terms are all zero is decided in the requested type.
+        coefficients = [numpy.asarray(coeff, dtype=dtype) for coeff in coefficients]
     exponents, coefficients, names = clean.postprocess_attributes(
         exponents=exponents,
         coefficients=coefficients,
